@@ -2,7 +2,7 @@
    decoders (go_slice / go_index) must return exactly what the implementation
    returned; property side: the observation is a value or an error. *)
 From Coq Require Import List NArith ZArith Bool.
-From LW Require Export Base.Outcome Base.Bytes Mac.Commands Mac.Spec Mac.Stream Frame.Model Frame.Checked.
+From LW Require Export Base.Outcome Base.Bytes Mac.Commands Mac.Spec Mac.Stream Frame.Model Frame.Checked Frame.CheckedJoin.
 From LWGen Require Import RegistryGen.
 Import ListNotations.
 Open Scope N_scope.
@@ -26,8 +26,8 @@ Definition check (c : case) : N :=
   | CPhy bs o => code (phyeqb (phy_unmarshal_chk bs) o) (okerrb o)
   | CStream up h bs o => code (ieqb (decode_stream (register_all builtin_registry h) up bs) o) (okerrb o)
   | CCmd up h bs o => code (outcome_eqb item_eqb (cmd_outcome up h bs) o) (okerrb o)
-  | CJoinAcc bs o => code (outcome_eqb payload_eqb (joinaccept_unmarshal bs) o) (okerrb o)
-  | CCFList bs o => code (outcome_eqb cflist_eqb (cflist_unmarshal bs) o) (okerrb o)
+  | CJoinAcc bs o => code (outcome_eqb payload_eqb (joinaccept_unmarshal_chk bs) o) (okerrb o)
+  | CCFList bs o => code (outcome_eqb cflist_eqb (cflist_unmarshal_chk bs) o) (okerrb o)
   end.
 
 Definition run_cases := run_with check.
